@@ -5,6 +5,7 @@ The oracle is computed from the rows the harness wrote (csv text -> Python
 floats -> Fractions); it never touches pandas or qstrader.
 """
 import datetime as dt
+import json
 import math
 import os
 import random
@@ -67,7 +68,9 @@ def gen_rows(rng, used, n=None, start=None):
             o = None
         if rng.random() < nan_p:
             c = None
-            a = None       # Close and Adj Close go missing together (see DESIGN.md C06 limits)
+            a = None       # a missing raw Close always comes with a missing Adj Close (see DESIGN.md C06 limits)
+        elif rng.random() < nan_p / 2:
+            a = None       # Adj Close blank on its own: with adjustment on, that bar has no adjusted open/close
         rows.append({'date': d.isoformat(), 'open': o, 'close': c, 'adj': a})
         d = d + dt.timedelta(days=rng.choice([1, 1, 1, 1, 2, 3, 3, 4, 7, 10, 30]))
     return rows
@@ -148,9 +151,13 @@ def isnan(x):
 class Dataset(object):
     """One directory of CSV files (+ a row-shuffled twin) and the real data sources over them."""
 
-    def __init__(self, rng, spec=None):
+    def __init__(self, rng, spec=None, reuse_dir=None):
         self.rng = rng
-        self.dir = tempfile.mkdtemp(prefix='qsmon-data-')
+        self.dir = reuse_dir or tempfile.mkdtemp(prefix='qsmon-data-')
+        self.own_dir = reuse_dir is None
+        if reuse_dir is not None:
+            for f in os.listdir(reuse_dir):
+                os.remove(os.path.join(reuse_dir, f))
         self.dir2 = tempfile.mkdtemp(prefix='qsmon-data-')
         used = set()
         if spec is None:
@@ -174,7 +181,8 @@ class Dataset(object):
         self.ev = {'EQ:' + sym: events(f['rows'], self.adjust) for sym, f in spec['files'].items()}
 
     def close(self):
-        shutil.rmtree(self.dir, ignore_errors=True)
+        if self.own_dir:
+            shutil.rmtree(self.dir, ignore_errors=True)
         shutil.rmtree(self.dir2, ignore_errors=True)
 
     def shape(self):
@@ -279,6 +287,15 @@ def run_dataset(ds, acc, rng, n_extra=0):
             check_answer(ds, asset, t, hba[1], 'handler.bid_ask[1]', acc)
             check_answer(ds, asset, t, hm, 'handler.mid', acc)
             acc.count('C06:handler_checks')
+            # pandas timestamps carry nanoseconds: one nanosecond after t answers like t, one before like t - 1us
+            if acc.counters['C06:handler_checks'] % 4 == 1:
+                after_ns = ts + pd.Timedelta(nanoseconds=1)
+                before_ns = ts - pd.Timedelta(nanoseconds=1)
+                check_answer(ds, asset, t, src.get_bid(after_ns, asset), 'get_bid[t+1ns]', acc)
+                check_answer(ds, asset, t, handler.get_asset_latest_mid_price(after_ns, asset), 'handler.mid[t+1ns]', acc)
+                check_answer(ds, asset, t - US, src.get_ask(before_ns, asset), 'get_ask[t-1ns]', acc)
+                check_answer(ds, asset, t - US, handler.get_asset_latest_bid_price(before_ns, asset), 'handler.bid[t-1ns]', acc)
+                acc.count('C06:nanosecond_checks')
             # an instant is an instant: the same query expressed in another time zone gives the same answer
             if acc.counters['C06:handler_checks'] % 3 == 0:
                 for zone in ('Asia/Tokyo', 'America/New_York', 'Asia/Kolkata'):
@@ -353,8 +370,33 @@ def shard_c06(spec, acc):
                         run_multi_source(ds, ds_b, acc, r2)
                     finally:
                         ds_b.close()
+                if i % 3 == 1:
+                    # same directory path, same constructor arguments, new file content: a NEW source object must
+                    # answer from the new rows (nothing keyed on the path may survive)
+                    spec2 = json.loads(json.dumps(ds.spec))
+                    for f in spec2['files'].values():
+                        for r in f['rows']:
+                            for fld in ('open', 'close', 'adj'):
+                                if r[fld] is not None:
+                                    r[fld] = round(r[fld] * 1.5 + 3.0, 4)
+                    ds_again = Dataset(r2, spec2, reuse_dir=ds.dir)
+                    try:
+                        run_dataset(ds_again, acc, r2)
+                    except Violation as v:
+                        raise Violation(v.prop, 'directory-reused/' + v.key, 'after the CSV files of the same directory were '
+                                        'rewritten and a new data source built on it: ' + v.msg, v.witness)
+                    finally:
+                        shutil.rmtree(ds_again.dir2, ignore_errors=True)
+                    acc.count('C06:directory_reuse_runs')
             except Violation as v:
                 acc.violation(v, {'spec': ds.spec, 'seed': seed})
+            except Exception as e:
+                if not core.from_repo(e):
+                    raise
+                import traceback
+                acc.violation(Violation('C06', 'raised/%s' % type(e).__name__,
+                                        'a price query raised %r; every query instant has an answer (a price or NaN)' % (e,),
+                                        {'traceback': traceback.format_exc()[-900:]}), {'spec': ds.spec, 'seed': seed})
             acc.evaluations += 1
             if ds.nontrivial():
                 acc.nontriv('C06', ds.shape())
